@@ -833,4 +833,41 @@ mod verif_replay_interp {
     fn verif_replay_interp_generated_invoke_ids_are_distinct() {
         assert_eq!(run(TWO_INVOKES, &[]), fin("pass"));
     }
+
+    /// C07: done.state.<parent> carries the evaluated <donedata> of the final state (params or content); a child that
+    /// reaches a top-level final (with donedata) makes the parent receive done.invoke.<id> with that invoke id
+    /// (the donedata of the child is not forwarded by this implementation: a TODO in returnDoneEvent, outside C07's text)
+    #[test]
+    fn verif_replay_interp_donedata() {
+        for (donedata, guard) in [
+            (r#"<donedata><param name="answer" expr="40 + 2"/><param name="text" expr="'x' + 'y'"/></donedata>"#, "(_event.data.answer == 42) &amp; (_event.data.text == 'xy')"),
+            (r#"<donedata><content expr="'hello'"/></donedata>"#, "_event.data == 'hello'"),
+            ("", "_event.data == null"),
+        ] {
+            let doc = format!(
+                r###"<scxml xmlns="http://www.w3.org/2005/07/scxml" initial="p" version="1.0" datamodel="rfsm-expression">
+ <state id="p" initial="a">
+  <state id="a"><transition target="f"/></state>
+  <final id="f">{}</final>
+  <transition event="done.state.p" cond="{}" target="pass"/>
+  <transition event="done.state.p" target="wrongdata"/>
+ </state>
+ <final id="pass"/><final id="wrongdata"/>
+</scxml>"###,
+                donedata, guard
+            );
+            assert_eq!(run(&doc, &[]), fin("pass"), "donedata {}", donedata);
+        }
+        let parent = r###"<scxml xmlns="http://www.w3.org/2005/07/scxml" initial="s0" version="1.0" datamodel="rfsm-expression">
+ <state id="s0">
+  <onentry><send event="timeout" delay="5s"/></onentry>
+  <invoke type="scxml" id="kid"><content><scxml xmlns="http://www.w3.org/2005/07/scxml" initial="c0" version="1.0" datamodel="rfsm-expression"><state id="c0"><transition target="cf"/></state><final id="cf"><donedata><param name="answer" expr="6 * 7"/></donedata></final></scxml></content></invoke>
+  <transition event="done.invoke.kid" cond="_event.invokeid == 'kid'" target="pass"/>
+  <transition event="done.invoke" target="wrongdata"/>
+  <transition event="timeout" target="nodone"/>
+ </state>
+ <final id="pass"/><final id="wrongdata"/><final id="nodone"/>
+</scxml>"###;
+        assert_eq!(run(parent, &[]), fin("pass"));
+    }
 }
